@@ -4,6 +4,9 @@ From VModel Require Import WRR.
 Import ListNotations.
 Open Scope Z_scope.
 
+Lemma word_eqb_refl w : word_eqb w w = true.
+Proof. induction w as [|x r IH]; cbn [word_eqb]; [reflexivity|]. rewrite Z.eqb_refl, IH. reflexivity. Qed.
+
 (* ---------- the stride rule ---------- *)
 
 (* the pick test without the uint64 wrap (which cannot happen, see [picked_nowrap]) *)
@@ -617,9 +620,6 @@ Qed.
 Lemma u16_round_range x : 0 <= u16_round x <= maxWeight.
 Proof. unfold u16_round, maxWeight. pose proof (Z.mod_pos_bound (round_nonneg x) 65536 ltac:(lia)). lia. Qed.
 
-Lemma word_eqb_refl w : word_eqb w w = true.
-Proof. induction w as [|x r IH]; cbn [word_eqb]; [reflexivity|]. rewrite Z.eqb_refl, IH. reflexivity. Qed.
-
 Lemma clause_new_ok i ps : forallb okc (clause_new i ps (new_scheduler (map fr ps))) = true.
 Proof.
   unfold clause_new. destruct (forallb _ ps); [|reflexivity]. cbn [negb forallb okc fst snd].
@@ -709,7 +709,8 @@ Proof.
   unfold clause_wt. cbn [step forallb okc fst snd]. unfold weight_at.
   destruct (e_last e =? 0); [reflexivity|]. cbn [orb].
   destruct (now - e_last e >=? expir); [reflexivity|]. cbn [orb].
-  destruct (negb (blackout =? 0) && ((e_since e =? 0) || (now - e_since e <? blackout))); reflexivity.
+  destruct (negb (blackout =? 0) && ((e_since e =? 0) || (now - e_since e <? blackout))); cbn [snd];
+    [reflexivity|]. rewrite word_eqb_refl. reflexivity.
 Qed.
 
 Lemma edf_window_shape B ws : forall k ctr tot mx cs,
